@@ -440,9 +440,10 @@ func c02Enum(thorough bool) mc.Enum {
 			e.Cases = append(e.Cases, c02ChallengeCase(size, chunk))
 		}
 	}
-	e.Cases = append(e.Cases, c02ChallengeCase(40, 1), c02ChallengeCase(130, 1))                                       // challenged indices with two and three digits
-	e.Cases = append(e.Cases, c02DeepCase())                                                                           // a proof 23 hashes deep
-	e.Cases = append(e.Cases, c02ChallengeCasePT(9, 4, 1), c02ChallengeCasePT(12, 3, 7), c02ChallengeCasePT(5, 1, -1)) // files posted with other proof types
+	e.Cases = append(e.Cases, c02ChallengeCase(40, 1), c02ChallengeCase(130, 1))                                          // challenged indices with two and three digits
+	e.Cases = append(e.Cases, c02DeepCase())                                                                              // a proof 23 hashes deep
+	e.Cases = append(e.Cases, c02ChallengeCase(5000, 2048), c02ChallengeCase(2100, 1025), c02ChallengeCase(30000, 10240)) // chunk sizes above the default of 1024
+	e.Cases = append(e.Cases, c02ChallengeCasePT(9, 4, 1), c02ChallengeCasePT(12, 3, 7), c02ChallengeCasePT(5, 1, -1))    // files posted with other proof types
 	Is := []int64{2, 3, 4}
 	windows := 3
 	if thorough {
@@ -483,7 +484,7 @@ func c02Enum(thorough bool) mc.Enum {
 func init() {
 	CaseReplayers["C02/honest-prover"] = func(r *mc.Run, c string) { r.ReplayCase(c02Enum(true), c) }
 	Props["C02"] = Prop{Level: "exploration", Run: func(r *mc.Run, tier string) {
-		r.Rules = append(r.Rules, "(1) every file size 1..4c+1 for chunk size c in {1,2,3,4,5,8} (tree cross-checked with utils.BuildTree), and a file of 2^22+1 one-byte chunks whose honest proof is 23 hashes deep (tree built level by level, cross-checked with the library verifier), x 64 consecutive challenge seeds (block gas) x 3 prove/re-challenge rounds on the real PostFile/PostProof; (2) proof window I in {2,3} (thorough {2,3,4,5}) x check window W in {2,3,4,5,7} x every file start phase x every join height in the first window x every placement vector of one proof per window over 3 (thorough 4) windows, one block at a time through the whole application's BeginBlocker/EndBlocker; (3) two files with out-of-phase proof windows (every phase difference, both walk orders), each with its own honest prover on the same schedules; (4) the honest prover also owns a file whose prover stops proving; (5) the honest prover shares a file with two provers that stop proving, at every list position; one evaluation = one (configuration, seed or placement vector) execution")
+		r.Rules = append(r.Rules, "(1) every file size 1..4c+1 for chunk size c in {1,2,3,4,5,8} (and files of 5000, 2100 and 30000 bytes with chunk sizes 2048, 1025 and 10240, above the default) (and files of 5000, 2100 and 30000 bytes with chunk sizes 2048, 1025 and 10240, above the default) (tree cross-checked with utils.BuildTree), and a file of 2^22+1 one-byte chunks whose honest proof is 23 hashes deep (tree built level by level, cross-checked with the library verifier), x 64 consecutive challenge seeds (block gas) x 3 prove/re-challenge rounds on the real PostFile/PostProof; (2) proof window I in {2,3} (thorough {2,3,4,5}) x check window W in {2,3,4,5,7} x every file start phase x every join height in the first window x every placement vector of one proof per window over 3 (thorough 4) windows, one block at a time through the whole application's BeginBlocker/EndBlocker; (3) two files with out-of-phase proof windows (every phase difference, both walk orders), each with its own honest prover on the same schedules; (4) the honest prover also owns a file whose prover stops proving; (5) the honest prover shares a file with two provers that stop proving, at every list position; one evaluation = one (configuration, seed or placement vector) execution")
 		r.Assumptions = append(r.Assumptions, "behaviour of the window predicates depends only on (h-start) mod I and h mod W, so one period of start phases covers every phase relation", "SHA-256/SHA3 collision freedom")
 		dl := time.Now().Add(70 * time.Second)
 		if tier == "thorough" {
